@@ -295,9 +295,14 @@ Definition reason_statement (r : reason) : Prop :=
       forall (g : K -> V -> V) (l1 l2 : list (K * V)), NoDup (map fst l1) -> Permutation l1 l2 ->
       forall k, lookup keq k (build_map keq (fun k => k) g l1) = lookup keq k (build_map keq (fun k => k) g l2)
   | RKeyGuardedAssign =>
-      forall (K V R : Type) (keq : K -> K -> bool), (forall a b, keq a b = true <-> a = b) ->
-      forall (c : K) (f : K * V -> R) (l1 l2 : list (K * V)), NoDup (map fst l1) -> Permutation l1 l2 ->
-      first_match (fun kv => keq (fst kv) c) f l1 = first_match (fun kv => keq (fst kv) c) f l2
+      (* `if k == c { x = g k v } else { dst[k] = h k v }` as a loop body: same final state for every visiting order *)
+      forall (K V I : Type) (keq : K -> K -> bool) (ieq : I -> I -> bool),
+      (forall a b, keq a b = true <-> a = b) -> (forall a b, ieq a b = true -> a = b) ->
+      forall (c : K) (g h : K -> V -> I) (st : list (cell K I)) (l1 l2 : list (K * V)),
+      NoDup (map fst l1) -> Permutation l1 l2 ->
+      state_equiv K I keq
+        (run_loop K V I keq [SAssignAtKey 0 c g; SMapWriteKey 1 (fun k _ => negb (keq k c)) h] st l1)
+        (run_loop K V I keq [SAssignAtKey 0 c g; SMapWriteKey 1 (fun k _ => negb (keq k c)) h] st l2)
   | RMinMatch =>
       forall (V : Type) (lower : str -> str) key (l1 l2 : list (str * V)), NoDup (map fst l1) -> Permutation l1 l2 ->
       xobject_get lower key l1 = xobject_get lower key l2
@@ -346,9 +351,12 @@ Definition reason_statement (r : reason) : Prop :=
       /\ (forall (V : Type) (tx : str -> V -> V) (l1 l2 : list (str * V)), NoDup (map fst l1) -> Permutation l1 l2 ->
           forall k, lookup str_eqb k (build_map str_eqb (fun k => k) tx l1) = lookup str_eqb k (build_map str_eqb (fun k => k) tx l2))
   | RKeyPartitioned =>
-      forall (K V W : Type) (keq : K -> K -> bool), (forall a b, keq a b = true <-> a = b) ->
-      forall (h : K -> V -> option W -> W) (l1 l2 : list (K * V)) acc, NoDup (map fst l1) -> Permutation l1 l2 ->
-      forall k, lookup keq k (fold_left (partitioned_step keq h) l1 acc) = lookup keq k (fold_left (partitioned_step keq h) l2 acc)
+      (* `dst[k] = h k v dst[k]` as a loop body *)
+      forall (K V I : Type) (keq : K -> K -> bool) (ieq : I -> I -> bool),
+      (forall a b, keq a b = true <-> a = b) -> (forall a b, ieq a b = true -> a = b) ->
+      forall (h : K -> V -> option I -> I) (st : list (cell K I)) (l1 l2 : list (K * V)),
+      NoDup (map fst l1) -> Permutation l1 l2 ->
+      state_equiv K I keq (run_loop K V I keq [SUpdateAtKey 0 h] st l1) (run_loop K V I keq [SUpdateAtKey 0 h] st l2)
   end.
 
 Theorem reasons_sound : forall r, reason_statement r.
@@ -356,7 +364,9 @@ Proof.
   destruct r; simpl.
   - (* RRegistration *) intros K V keq Hk g l1 l2 Hnd Hp.
     apply (build_map_perm_invariant keq Hk (fun k => k) g l1 l2); try assumption. intros a b _ _ E. exact E.
-  - (* RKeyGuardedAssign *) intros K V R keq Hk c f l1 l2 Hnd Hp. apply key_guarded_first_match_perm_invariant; assumption.
+  - (* RKeyGuardedAssign *) intros K V I keq ieq Hk Hi c g h st l1 l2 Hnd Hp.
+    apply (safe_body_perm_invariant K V I keq ieq Hk Hi); try assumption.
+    unfold body_safe. simpl. rewrite (keq_refl keq Hk c). reflexivity.
   - (* RMinMatch *) intros V lower key l1 l2 Hnd Hp. apply xobject_get_perm_invariant; assumption.
   - (* RValueKeyedByOwnKey *) intros K V W keq Hk key_of g l1 l2 Hkey Hnd Hp.
     apply (value_keyed_perm_invariant keq Hk key_of g l1 l2); assumption.
@@ -377,8 +387,8 @@ Proof.
     + intros V R sel f l1 l2 Hnd Hp. apply (key_guarded_first_match_perm_invariant str_eqb str_eqb_spec); assumption.
     + intros V tx l1 l2 Hnd Hp.
       apply (build_map_perm_invariant str_eqb str_eqb_spec (fun k => k) tx l1 l2); try assumption. intros a b _ _ E. exact E.
-  - (* RKeyPartitioned *) intros K V W keq Hk h l1 l2 acc Hnd Hp.
-    apply (key_partitioned_perm_invariant keq Hk h l1 l2 acc); assumption.
+  - (* RKeyPartitioned *) intros K V I keq ieq Hk Hi h st l1 l2 Hnd Hp.
+    apply (safe_body_perm_invariant K V I keq ieq Hk Hi); try assumption. reflexivity.
 Qed.
 
 (* every entry of the committed table carries a reason whose statement is proved *)
